@@ -136,7 +136,8 @@ CLAIMED['C08'] = dict(
          'independence), reversibility and the substitution. Every transition of the state graph is then executed on '
          'eleven reducible object classes, reached by a short or a longer history, and names, counts and every evaluation '
          '(value, pointwise, restricted sensitivities, seeded samples, simulation, copy) are compared with the unfixed '
-         'object at the substituted vector.',
+         'object at the substituted vector. Two alternative designs (constant Design: a fresh mask per call; no collapse '
+         'after the last release) are refuted by TLC on every run as negative controls.',
     note='3 names x 2 values (+ foreign key) replayed; 4 names x 3 values at specification level in the thorough tier; '
          'the unfixed objects are the oracle; half of the histories are "primed" (sensitivities on / a gradient evaluation before '
          'the fixing history, gradient first afterwards); the all-parameters-fixed state is evaluated too',
@@ -209,7 +210,7 @@ CLAIMED['C14'] = dict(
     text='The specification defines, for a long-format dataset, the posterior it describes: individuals in first-occurrence '
          'order, per individual and output the (time, value) pairs of the mapped observable in row order, the dose events of '
          'its own dose rows (bolus by default) and its covariate value; TLC enumerates all datasets of a few extra rows over '
-         'seven row kinds and checks routing sanity (each usable measurement routed once, unrelated rows irrelevant, own rows '
+         'eight row kinds (one of them a measurement row that also carries a dose) and checks routing sanity (each usable measurement routed once, unrelated rows irrelevant, own rows '
          'only). Datasets are replayed as pandas frames (int or string ids, extra column) through ProblemModellingController '
          'on a dosed PKPD model; regimens, names, IDs, value and gradient must equal those of the posterior assembled by hand '
          'from the specification record, in individual, population and population+covariate mode.',
@@ -248,7 +249,9 @@ CLAIMED['C20'] = dict(
          'sample sequence (ties included) and a grid of bulk probabilities, that the limits enclose the requested fraction, are '
          'nested and exist monotonically; it also defines the routing of data-frame rows to per-individual marker and dose '
          'traces. Every enumerated sample sequence / row set is plotted with the real figure classes and the plotly traces '
-         'are read back and compared; data frames are compared before and after.',
+         'are read back and compared; data frames are compared before and after. Beyond the enumerated bound the same '
+         'invariants (enclosure, nesting, limits are samples) are evaluated exactly on the output for seeded sets of 101 to '
+         '1000 distinct samples.',
     note='figure objects, not pixels; threshold ties between floating point and exact arithmetic are excluded from the '
          'equality check (the property itself is still checked on them); band frames list the time points in ascending order or later-first; probabilities include 0.99 and 0.995; routing rows carry dose and duration independently',
     technique='TLA+ spec (Plots.tla) model-checked with TLC; spec->code replay through the plotly figure objects',
